@@ -337,6 +337,8 @@ func grpcStatusExtra(t *tr) string {
 	gsIDCounter(t, &b)
 	// ---- 7. sample-relevant slices of the guns' shoot functions
 	gsSlices(t, &b)
+	// ---- 8. path summaries of the functions that report samples
+	gsPaths(t, &b)
 	return b.String()
 }
 
